@@ -83,6 +83,33 @@ def established_by_pid(port, pids):
     return res
 
 
+def listener_pid(port, pids):
+    """which of `pids` holds the LISTENING tcp socket on `port` (e.g. the worker that runs the notify server)"""
+    inodes = set()
+    try:
+        with open("/proc/net/tcp") as fp:
+            next(fp)
+            for line in fp:
+                f = line.split()
+                if int(f[1].rsplit(":", 1)[1], 16) == port and f[3] == "0A":
+                    inodes.add(f[9])
+    except OSError:
+        return None
+    for pid in pids:
+        try:
+            for fd in os.listdir("/proc/%d/fd" % pid):
+                try:
+                    t = os.readlink("/proc/%d/fd/%s" % (pid, fd))
+                except OSError:
+                    continue
+                m = re.match(r"socket:\[(\d+)\]", t)
+                if m and m.group(1) in inodes:
+                    return pid
+        except OSError:
+            pass
+    return None
+
+
 class E2EError(RuntimeError):
     """the rig itself could not do its part (server did not start, ...): inconclusive, never a verdict"""
 
